@@ -26,11 +26,12 @@ type params struct {
 	Fault    string // write-error | raw-outside | v1-bigid | v1-bigid-frame | nodialect-raw
 	Pos      int    // position of the bad item in the write history (0 first, 1 middle, 2 last)
 	N        int    // number of writes to all in the stall scenario
+	Flavour  string // stall: how the items reach the stalled channel: all | to | except | frame-to
 }
 
 func (p params) name() string {
 	if p.Scenario == "stall" {
-		return fmt.Sprintf("stall/n%d", p.N)
+		return fmt.Sprintf("stall/n%d/%s", p.N, p.Flavour)
 	}
 	return fmt.Sprintf("fail/%s/%s/pos%d", p.KindA, p.Fault, p.Pos)
 }
@@ -131,12 +132,34 @@ func (e *exec) Body() {
 	var wantA, wantB []uint32 // ping numbers submitted to A / B, in order
 	w := func(i int, all bool) {
 		var err error
+		toB := true
 		if all {
-			err = n.WriteMessageAll(ping(i))
+			switch p.Flavour {
+			case "to":
+				// addressed to the stalled channel only; the healthy one gets its own copy
+				err = n.WriteMessageTo(chA, ping(i))
+				if err == nil {
+					err = n.WriteMessageTo(chB, ping(i))
+				}
+			case "except":
+				err = n.WriteMessageExcept(chB, ping(i)) // reaches A only
+				if err == nil {
+					err = n.WriteMessageExcept(chA, ping(i)) // reaches B only
+				}
+			case "frame-to":
+				fa := &frame.V2Frame{SequenceNumber: byte(i), SystemID: 10, ComponentID: 1, Message: ping(i)}
+				err = n.WriteFrameTo(chA, fa)
+				if err == nil {
+					err = n.WriteMessageTo(chB, ping(i))
+				}
+			default:
+				err = n.WriteMessageAll(ping(i))
+			}
 			wantA = append(wantA, uint32(i))
 		} else {
 			err = n.WriteMessageTo(chB, ping(i))
 		}
+		_ = toB
 		wantB = append(wantB, uint32(i))
 		if err != nil {
 			e.problems = append(e.problems, fmt.Sprintf("valid write %d refused: %v", i, err))
@@ -203,8 +226,8 @@ func (e *exec) Body() {
 		if !subsequence(gotA, wantA) {
 			e.problems = append(e.problems, fmt.Sprintf("stalled channel A received %v, not an order-preserving subsequence of %v", gotA, wantA))
 		}
-		if len(gotA) != e.blockAt-1 {
-			e.problems = append(e.problems, fmt.Sprintf("stalled channel A: %d frames written before the blocked call %d", len(gotA), e.blockAt))
+		if len(gotA) > e.blockAt-1 {
+			e.problems = append(e.problems, fmt.Sprintf("stalled channel A: %d frames written although call %d blocks forever", len(gotA), e.blockAt))
 		}
 	} else {
 		// either closed and reported, or every later valid write was delivered
@@ -297,7 +320,9 @@ func (e *exec) Outcome(r *vmc.Result) string {
 
 func variants(thorough bool) []sx.Variant {
 	var ps []params
-	ps = append(ps, params{Scenario: "stall", KindA: "custom", N: 70})
+	for _, fl := range []string{"all", "to", "except", "frame-to"} {
+		ps = append(ps, params{Scenario: "stall", KindA: "custom", N: 70, Flavour: fl})
+	}
 	for _, kind := range []string{"custom", "serial", "tcpclient"} {
 		for _, f := range []string{"write-error", "raw-outside", "v1-bigid", "v1-bigid-frame", "nodialect-raw"} {
 			for pos := 0; pos < 4; pos++ {
